@@ -586,6 +586,94 @@ theorem encode_ne_panic (wl : List Bytes) (hlen : wl.length = 2048) (csByte : By
     rw [h]; simp
   · rw [encode_invalid _ _ _ hv]; simp
 
+/-! ### `GenerateMnemonic` -/
+
+theorem invalidEntropySize_nat (b : Nat) :
+    invalidEntropySize (b : Int) = false ↔ 128 ≤ b ∧ b ≤ 256 ∧ b % 32 = 0 := by
+  simp only [invalidEntropySize, bip39_ValidateEntropySize_0, Bool.or_eq_false_iff,
+    decide_eq_false_iff_not]
+  have : Int.tmod (b : Int) 32 = ((b % 32 : Nat) : Int) := by
+    rw [Int.tmod_eq_emod_of_nonneg (by omega)]; omega
+  rw [this]
+  omega
+
+/-- `GenerateEntropy` followed by `EncodeToWords`, for a non-negative bit size -/
+theorem generate_of_bitSize (wl : List Bytes) (csByte : Bytes → UInt8) (rand : Bytes) (b : Nat)
+    (ws : List Bytes)
+    (h : generateFrom wl csByte rand (b : Int) = .ok ws) :
+    (128 ≤ b ∧ b ≤ 256 ∧ b % 32 = 0) ∧ ws.length = b / 8 * 3 / 4 ∧ b / 8 ≤ rand.length := by
+  unfold generateFrom generateEntropy at h
+  cases hg : invalidEntropySize (b : Int) with
+  | true => rw [hg] at h; simp at h
+  | false =>
+    have hb := (invalidEntropySize_nat _).mp hg
+    rw [hg] at h
+    simp only [Bool.false_eq_true, if_false] at h
+    have hl : ((b : Int) / 8).toNat = b / 8 := by omega
+    rw [hl] at h
+    cases hr : Parser.readN (b / 8) rand with
+    | err => simp [hr] at h
+    | panic => simp [hr] at h
+    | ok p =>
+      obtain ⟨ent, rest⟩ := p
+      obtain ⟨hsplit, hlen⟩ := Parser.readN_ok hr
+      simp only [hr] at h
+      have hv : ValidLen ent.length := by rw [hlen]; unfold ValidLen; omega
+      rw [encode_valid _ _ _ hv] at h
+      have hall := (lookupAll_ok_iff _ _ _).mp h
+      refine ⟨hb, ?_, ?_⟩
+      · rw [← hall.length_eq, indices_length, hlen]
+      · rw [hsplit, List.length_append, hlen]; omega
+
+theorem mnemonic_bitSize (n : Nat) (hn : n < 288230376151711744) :
+    Int.tdiv (BtcVerif.Gen.wrapS 18446744073709551616 ((n : Int) * 32)) 3
+      = ((n * 32 / 3 : Nat) : Int) := by
+  have t1 : (0 : Int) ≤ (n : Int) * 32 := by omega
+  have t2 : 2 * ((n : Int) * 32) < ((18446744073709551616 : Nat) : Int) := by omega
+  rw [BtcVerif.Gen.wrapS_of_small _ _ t1 t2]
+  clear t2 hn
+  rw [Int.tdiv_eq_ediv_of_nonneg t1]
+  omega
+
+/-- for a word count whose product with 32 does not overflow Go's `int` (n < 2^58):
+    `GenerateMnemonic` succeeds only for 12/15/18/21/24 words, returns that many words, and has
+    read `n*4/3` bytes -/
+theorem generateMnemonic_ok (wl : List Bytes) (csByte : Bytes → UInt8) (rand : Bytes) (n : Nat)
+    (hn : n < 288230376151711744) (ws : List Bytes)
+    (h : generateMnemonic wl csByte rand (n : Int) = .ok ws) :
+    ValidCount n ∧ ws.length = n ∧ n * 4 / 3 ≤ rand.length := by
+  unfold generateMnemonic at h
+  rw [mnemonic_bitSize n hn] at h
+  obtain ⟨hb, hlen, hr⟩ := generate_of_bitSize wl csByte rand _ ws h
+  clear hn h
+  have hcount : ValidCount n := by unfold ValidCount; omega
+  unfold ValidCount at hcount
+  refine ⟨hcount, by omega, by omega⟩
+
+/-- … and it does succeed for those counts when the reader has enough bytes; the mnemonic decodes
+    to the bytes read -/
+theorem generateMnemonic_succeeds (wl : List Bytes) (hlen : wl.length = 2048) (hnd : wl.Nodup)
+    (csByte : Bytes → UInt8) (rand : Bytes) (n : Nat) (hc : ValidCount n)
+    (hr : n * 4 / 3 ≤ rand.length) :
+    ∃ ws, generateMnemonic wl csByte rand (n : Int) = .ok ws ∧ ws.length = n ∧
+      decode (wordMapOf wl) csByte ws = .ok (rand.take (n * 4 / 3)) := by
+  have hn : n < 288230376151711744 := by unfold ValidCount at hc; omega
+  unfold generateMnemonic
+  rw [mnemonic_bitSize n hn]
+  clear hn
+  have hg : invalidEntropySize ((n * 32 / 3 : Nat) : Int) = false :=
+    (invalidEntropySize_nat _).mpr (by unfold ValidCount at hc; omega)
+  have hl : (((n * 32 / 3 : Nat) : Int) / 8).toNat = n * 4 / 3 := by
+    unfold ValidCount at hc; omega
+  have hread : Parser.readN (n * 4 / 3) rand = .ok (rand.take (n * 4 / 3), rand.drop (n * 4 / 3)) := by
+    simp [Parser.readN, List.length_take, Nat.min_eq_left hr]
+  have hv : ValidLen (rand.take (n * 4 / 3)).length := by
+    rw [List.length_take, Nat.min_eq_left hr]; unfold ValidCount at hc; unfold ValidLen; omega
+  obtain ⟨ws, hws, hwl⟩ := encode_total wl hlen csByte _ hv
+  refine ⟨ws, ?_, ?_, decode_of_encode wl hnd csByte _ ws hws⟩
+  · simp only [generateFrom, generateEntropy, hg, Bool.false_eq_true, if_false, hl, hread, hws]
+  · rw [hwl, List.length_take, Nat.min_eq_left hr]; unfold ValidCount at hc; omega
+
 /-! ### the word list of the source -/
 
 /-- T1: the list regenerated from wordlist.go is the pinned copy (re-checked on every run) -/
